@@ -8,6 +8,7 @@ package wsworld
 import (
 	"context"
 	"fmt"
+	"runtime"
 	"sort"
 	"strings"
 	"testing"
@@ -32,6 +33,15 @@ type call struct {
 func Run(t *testing.T, prop, tier string, c *simcore.Choices, full bool) *simcore.RunResult {
 	res := &simcore.RunResult{Probes: map[string]int{}, Faults: map[string]int{}}
 	r := simcore.NewRecorder(full)
+
+	if c.Choose(6) == 0 {
+		runConcurrent(prop, c, res, r)
+		res.Log = r.Log
+		res.LogHash = r.Hash()
+		res.Violation = r.Violation()
+		res.Choices = c.Trace
+		return res
+	}
 
 	// ---- plan, drawn before entering the bubble ----
 	n := c.Choose(13)
@@ -350,4 +360,143 @@ func fmtTimes(closeAt []time.Duration, members map[int]bool) string {
 		parts = append(parts, fmt.Sprintf("%d@%s", i, fmtD(closeAt[i])))
 	}
 	return strings.Join(parts, ",")
+}
+
+// runConcurrent lets several goroutines call Wait on one set at the same time (settle time 0, no timers, so
+// no clock is involved and the scenario runs on plain goroutines). Members are closed in batches while the
+// waiters are parked; at the end every context is cancelled. Whatever the interleaving: every returned
+// channel is a closed member, no channel is returned twice, a call without error returned something, an
+// error is the context's, and afterwards the set holds exactly the members that were never returned.
+func runConcurrent(prop string, c *simcore.Choices, res *simcore.RunResult, r *simcore.Recorder) {
+	n := 2 + c.Choose(6)
+	nw := 2 + c.Choose(2)
+	nb := 1 + c.Choose(3)
+	batches := make([][]int, nb)
+	left := make([]int, n)
+	for i := range left {
+		left[i] = i
+	}
+	for b := range batches {
+		for k := 0; k < len(left); {
+			if c.Choose(3) == 0 {
+				batches[b] = append(batches[b], left[k])
+				left = append(left[:k], left[k+1:]...)
+			} else {
+				k++
+			}
+		}
+	}
+	yields := make([]int, nb+1)
+	for i := range yields {
+		yields[i] = 20 + c.Choose(200)
+	}
+	res.Desc = fmt.Sprintf("prop=%s concurrent waiters=%d channels=%d batches=%v", prop, nw, n, batches)
+	r.Logf("concurrent: %d waiters, %d channels, close batches %v", nw, n, batches)
+	res.Probes["concurrent-waiters"]++
+
+	chans := make([]chan struct{}, n)
+	ro := make([]<-chan struct{}, n)
+	idx := map[<-chan struct{}]int{}
+	ws := statedb.NewWatchSet()
+	for i := range chans {
+		chans[i] = make(chan struct{})
+		ro[i] = chans[i]
+		idx[ro[i]] = i
+		ws.Add(ro[i])
+	}
+	type outcome struct {
+		got     []<-chan struct{}
+		open    []int // returned although not closed at the return
+		err     error
+		ctxErr  error
+		waiter  int
+		foreign bool
+	}
+	out := make(chan outcome, nw)
+	cancels := make([]context.CancelFunc, nw)
+	for w := 0; w < nw; w++ {
+		ctx, cancel := context.WithCancel(context.Background())
+		cancels[w] = cancel
+		go func(w int) {
+			got, err := ws.Wait(ctx, 0)
+			o := outcome{got: got, err: err, ctxErr: ctx.Err(), waiter: w}
+			for _, ch := range got {
+				i, ok := idx[ch]
+				if !ok {
+					o.foreign = true
+					continue
+				}
+				select {
+				case <-ch:
+				default:
+					o.open = append(o.open, i)
+				}
+			}
+			out <- o
+		}(w)
+	}
+	spin := func(k int) {
+		for i := 0; i < k; i++ {
+			runtime.Gosched()
+		}
+	}
+	spin(yields[0])
+	for b, batch := range batches {
+		for _, i := range batch {
+			close(chans[i])
+			res.Faults["member-closed"]++
+		}
+		spin(yields[b+1])
+	}
+	for _, cancel := range cancels {
+		cancel()
+	}
+	returned := map[int]int{}
+	var outs []outcome
+	for w := 0; w < nw; w++ {
+		outs = append(outs, <-out)
+	}
+	res.Progress += nw
+	res.Stats.Steps = nw
+	for _, o := range outs {
+		desc := func() string {
+			var gi []int
+			for _, ch := range o.got {
+				gi = append(gi, idx[ch])
+			}
+			sort.Ints(gi)
+			return fmt.Sprintf("concurrent Wait of waiter %d (of %d; %d channels, close batches %v) returned %v err=%v", o.waiter, nw, n, batches, gi, o.err)
+		}
+		switch {
+		case o.foreign:
+			r.Violate("C20", "foreign-channel", "%s: a channel that was never added", desc())
+			return
+		case len(o.open) > 0:
+			r.Violate("C20", "not-closed", "%s: channel %d is not closed", desc(), o.open[0])
+			return
+		case o.err == nil && len(o.got) == 0:
+			r.Violate("C20", "empty-without-error", "%s: no channel and no error", desc())
+			return
+		case o.err != nil && o.err != o.ctxErr:
+			r.Violate("C20", "wrong-error", "%s: the context's error is %v", desc(), o.ctxErr)
+			return
+		}
+		for _, ch := range o.got {
+			returned[idx[ch]]++
+			if returned[idx[ch]] > 1 {
+				r.Violate("C20", "duplicate", "%s: channel %d was already returned by an earlier or concurrent call", desc(), idx[ch])
+				return
+			}
+		}
+	}
+	for i := 0; i < n; i++ {
+		want := returned[i] == 0
+		if ws.Has(ro[i]) != want {
+			r.Violate("C20", "set-after", "after %d concurrent Wait calls (close batches %v) Has(channel %d)=%v, want %v (returned %d times)", nw, batches, i, !want, want, returned[i])
+			return
+		}
+	}
+	if len(returned) > 0 {
+		res.Probes["concurrent-returned-channels"]++
+	}
 }
